@@ -108,8 +108,103 @@ def sema_ranges(ctx, failures):
                                  "detail": {"text": r["text"], "error": e, "what": "semantic diagnostic range is not the range of any node of the tree"},
                                  "guards": set(), "model_agrees": r["agree"] is not False,
                                  "replay_how": "echo '<input>' | /verif/harness/target/debug/oq3-run sema   (and `tree` for the node ranges)"})
+    ninc = include_ranges(ctx, failures)
     return {"semantic_programs": len(progs), "semantic_programs_with_errors": nprog, "semantic_diagnostics_checked": nerr,
+            "include_arrangements_checked": ninc,
             "semantic_diagnostic_kinds": kinds, "sema_correspondence": dict(stats)}
+
+
+def parse_semtree(txt):
+    """`(path [e,..] [(..) (..)])` -> (path, [errors], [children])"""
+    pos = 0
+
+    def node():
+        nonlocal pos
+        assert txt[pos] == "(", txt[pos:pos + 30]
+        pos += 1
+        j = txt.index(" [", pos)
+        path = txt[pos:j]
+        pos = j + 2
+        k = txt.index("]", pos)
+        errs = [e for e in txt[pos:k].split(",") if e]
+        pos = k + 1
+        assert txt[pos:pos + 2] == " [", txt[pos:pos + 20]
+        pos += 2
+        kids = []
+        while txt[pos] != "]":
+            if txt[pos] == " ":
+                pos += 1
+                continue
+            kids.append(node())
+        pos += 1
+        assert txt[pos] == ")"
+        pos += 1
+        return (path, errs, kids)
+    return node()
+
+
+def include_ranges(ctx, failures):
+    """semantic clause over include trees: a diagnostic filed under a file has the range of a node of THAT file's
+    tree; a file that could not be read has no text, no tree and therefore no diagnostics of its own"""
+    import json
+    from . import c18
+    rnd = random.Random(ctx.seed + 13)
+    n = 400 if ctx.tier == "quick" else 6000
+    cases = [c18.gen_case(rnd, 100000 + i) for i in range(n)]
+    fixed = [{"id": "r1", "files": {}, "main": 'include "nope.inc";\nqubit q;\n', "search": None, "env": None},
+             {"id": "r2", "files": {"a.inc": "int a1 = x;\n"}, "main": 'include "nope.inc";\ninclude "a.inc";\nqubit q;\nint q;\n', "search": None, "env": None},
+             {"id": "r3", "files": {"a.inc": 'include "deep.inc";\nint é = ü;\n'}, "main": 'include "a.inc";\n', "search": None, "env": None}]
+    for c in fixed:
+        c["root"] = f"{c18.BASE}/{c['id']}"
+    cases = fixed + cases
+    out = C.run_impl(ctx, "include", [json.dumps({k: v for k, v in c.items() if k != "root"}) for c in cases], tag="c12inc")
+    texts = sorted({c["main"] for c in cases} | {b for c in cases for b in c["files"].values() if b is not None})
+    trees = dict(zip(texts, C.run_impl(ctx, "tree", [G.enc(t) for t in texts], tag="c12inc-tree")))
+
+    def ranges_of(text):
+        t = trees.get(text)
+        if t is None or PL.canon_panic(t):
+            return None
+        return {(int(a), int(b)) for a, b in re.findall(r"\((?:[A-Z_0-9]+) (\d+) (\d+)", PL.fields(t).get("tree", ""))}
+    nchecked = 0
+    for c, o in zip(cases, out):
+        if ";semtree=" not in o or PL.canon_panic(o):
+            continue
+        try:
+            tree = parse_semtree(o.split(";semtree=", 1)[1])
+        except (AssertionError, ValueError):
+            continue
+        root = c["root"]
+
+        def text_of(path):
+            if path == "no file":
+                return c["main"]
+            rel = path[len("@ROOT@/"):] if path.startswith("@ROOT@/") else (path[len(root) + 1:] if path.startswith(root + "/") else path)
+            return c["files"].get(rel)
+
+        def walk(node):
+            nonlocal nchecked
+            path, errs, kids = node
+            text = text_of(path)
+            rs = ranges_of(text) if text is not None else None
+            for e in errs:
+                nchecked += 1
+                kind, _, rg = e.partition("@")
+                a, _, b = rg.partition("-")
+                bad = None
+                if text is None:
+                    bad = "diagnostic filed under a file that has no text (could not be read)"
+                elif rs is not None and (int(a), int(b)) not in rs:
+                    bad = "range is not the range of a node of the tree of the file it is filed under"
+                if bad:
+                    failures.append({"case": json.dumps({k: v for k, v in c.items() if k != "root"}), "check": "sema_range_is_node_range",
+                                     "detail": {"file": path, "error": e, "what": bad, "main": c["main"], "result": o[-400:]},
+                                     "guards": set(), "model_agrees": True,
+                                     "replay_how": "echo '<case json>' | /verif/harness/target/debug/oq3-run include"})
+            for k in kids:
+                walk(k)
+        walk(tree)
+    return len(cases)
 
 
 C12_EXTRA = ["def f(mutable № [int, 3] x) {}", "def f(readonly № [int,3] x) { }", "x = \"a\\qb\";", "π = \"\\u{zz}\";"]
